@@ -5,6 +5,7 @@ import (
 	"bytes"
 	"context"
 	"fmt"
+	"io"
 	"net/http"
 	"net/http/httptest"
 	"net/url"
@@ -12,6 +13,7 @@ import (
 	"os/exec"
 	"path/filepath"
 	"strings"
+	"sync"
 	"sync/atomic"
 	"syscall"
 	"time"
@@ -104,6 +106,14 @@ func makeScenario(seed int64, s int, tier string) scenario {
 			sc.blob = dsu.MakeBlob(rng, "repetitive", size, sc.sz)
 		} else {
 			sc.blob = dsu.MakeBlob(rng, "random", size, sc.sz)
+		}
+	}
+	if s%3 == 1 && len(sc.blob) > 3*int(sc.sz.Max) {
+		// a run of zeros that holds whole chunks of the maximum size (sparse images): chunks like any other as far as
+		// the target store is concerned
+		at := int(sc.sz.Max) + (s*131)%(len(sc.blob)-3*int(sc.sz.Max)+1)
+		for j := at; j < at+2*int(sc.sz.Max)+int(sc.sz.Max)/3 && j < len(sc.blob); j++ {
+			sc.blob[j] = 0
 		}
 	}
 	sc.idx = dsu.RefIndex(sc.blob, sc.sz)
@@ -710,10 +720,41 @@ func runCLI(c *harness.Ctx, sc scenario, s, slot int) {
 	dsu.WriteFile(file, sc.blob)
 	idxFile := filepath.Join(dir, "blob.caibx")
 	var args []string
+	var idxViaHTTP []byte
+	idxViaHTTPUsed := false
 	expectIdx := sc.idx
 	switch cmdName {
 	case "make":
 		args = []string{"make", "-n", fmt.Sprint(sc.n), "-m", "1:2:4", "-s", dstSrv.URL, "-e", "1", idxFile, file}
+		if slot == 0 && s%2 == 0 {
+			// the index goes to an HTTP location as well: a server that keeps whatever body a PUT carries (WebDAV style)
+			// and answers the first upload with a 503 after having read it; the retry is accepted
+			var imu sync.Mutex
+			var puts int
+			idxSrv := httptest.NewServer(http.HandlerFunc(func(w http.ResponseWriter, r *http.Request) {
+				switch r.Method {
+				case "PUT":
+					b, _ := io.ReadAll(r.Body)
+					imu.Lock()
+					puts++
+					first := puts == 1
+					if !first {
+						idxViaHTTP = b
+					}
+					imu.Unlock()
+					if first {
+						http.Error(w, "try again", http.StatusServiceUnavailable)
+						return
+					}
+					w.WriteHeader(http.StatusCreated)
+				default:
+					http.NotFound(w, r)
+				}
+			}))
+			defer idxSrv.Close()
+			idxViaHTTPUsed = true
+			args = []string{"make", "-n", fmt.Sprint(sc.n), "-m", "1:2:4", "-s", dstSrv.URL, "-e", "3", "-b", "1ms", idxSrv.URL + "/blob.caibx", file}
+		}
 		if rng.Intn(3) == 0 {
 			// reporting option: what the command does and what its exit status says must not depend on it
 			args = append([]string{"make", "--print-stats"}, args[1:]...)
@@ -752,6 +793,10 @@ func runCLI(c *harness.Ctx, sc scenario, s, slot int) {
 		}
 		if cmdName == "make" || cmdName == "tar" {
 			raw, rerr := os.ReadFile(idxFile)
+			if idxViaHTTPUsed {
+				raw, rerr = idxViaHTTP, nil
+				c.Count("cli_indexes_uploaded_over_http_after_a_503", 1)
+			}
 			if rerr != nil {
 				c.Violation("cli-no-index", "exit 0 but %v", rerr)
 				return
